@@ -33,6 +33,9 @@
 #define protected public
 #include <pistache/http.h>
 #include <pistache/transport.h>
+#include <pistache/net.h>
+#include <pistache/cookie.h>
+#include <pistache/mime.h>
 #include <cstdio>
 #include <cstddef>
 #pragma GCC diagnostic ignored "-Winvalid-offsetof"
@@ -59,6 +62,8 @@ int main() {
   O(RequestParser_request, RequestParser, request); O(RequestParser_time, RequestParser, time_); S(RequestParser, RequestParser);
   O(DynamicStreamBuf_data, DynamicStreamBuf, data_); O(DynamicStreamBuf_maxSize, DynamicStreamBuf, maxSize_); S(DynamicStreamBuf, DynamicStreamBuf);
   O(RawBuffer_data, RawBuffer, data_); O(RawBuffer_length, RawBuffer, length_); S(RawBuffer, RawBuffer);
+  O(AddressParser_host, AddressParser, host_); O(AddressParser_port, AddressParser, port_); O(AddressParser_hasColon, AddressParser, hasColon_); O(AddressParser_family, AddressParser, family_); S(AddressParser, AddressParser);
+  O(Address_port, Address, port_); S(Address, Address); O(Port_port, Port, port); S(Port, Port);
   printf("#define VP_METHOD_NAMES ");
 #define METHOD(repr, str) printf("\"%s\",", str);
   HTTP_METHODS
